@@ -48,7 +48,7 @@ ASSUMPTIONS = [
     'not generated: strings that begin with a marker but have trailing text; '
     'references resolving to strings that look like markers; two components '
     'of one type in an entity; duplicate entity ids',
-    'explicit ids are strings or ints >= 1000 so they cannot meet automatic '
+    'explicit ids are strings, ints >= 1000 or ints <= 0 (falsy ones included) so they cannot meet automatic '
     'ones (collisions are the subject of C01)',
 ]
 
@@ -127,7 +127,8 @@ def gen_one(rng, tier, index):
         for _ in range(rng.randint(0, 6)):
             ent = {}
             if rng.random() < 0.4:
-                eid = rng.choice(['player', 'e2', 1000, 1001, 2000, 'x y'])
+                eid = rng.choice(['player', 'e2', 1000, 1001, 2000, 'x y', 0, '',
+                                  -5])
                 if eid in used:
                     continue
                 used.add(eid)
